@@ -19,7 +19,7 @@ ASSUMPTIONS = [
     "readings); the suggestion is wrong only if it is rejected in both readings while another position is accepted",
     "allowed-child oracle: the name labels a transition on some path from the start state to an accepting state",
 ]
-REQUIRED = ["stateful_queries", "index_cases", "restorable_cases", "foreign_refused", "allowed_true", "allowed_false", "sorted_cases"]
+REQUIRED = ["candidates_with_a_past", "stateful_queries", "index_cases", "restorable_cases", "foreign_refused", "allowed_true", "allowed_false", "sorted_cases"]
 EXHAUSTIVE = {"quick": False, "thorough": False}
 
 
@@ -43,8 +43,28 @@ def judge(ctx, rule_name, r, m, rank, seq, cand, element):
     parent = Node(element)
     for c in seq:
         parent.add_child(Node(c))
-    new = Node(cand)
-    wit = {"rule": rule_name, "seq": list(seq), "candidate": cand}
+    # the candidate is not always a brand-new node: it may have been created for, taken from, or copied from another parent (whose
+    # children differ) - the answer is about the parent that was passed
+    past = (len(seq) + len(cand)) % 4
+    other = None
+    if past == 0:
+        new = Node(cand)
+    else:
+        other = Node(element)
+        for c in list(reversed(seq)) + list(seq):
+            other.add_child(Node(c))
+        if past == 1:
+            new = Node(cand, parent=other)
+        elif past == 2:
+            new = Node(cand)
+            other.add_child(new, 0)
+            other.remove_child(new)
+        else:
+            elsewhere = Node(cand)
+            other.add_child(elsewhere)
+            new = elsewhere.copy()
+        ctx.count("candidates_with_a_past")
+    wit = {"rule": rule_name, "seq": list(seq), "candidate": cand, "candidate_past": past}
     ctx.evaluated()
     try:
         if cand not in rank:
@@ -80,6 +100,8 @@ def judge(ctx, rule_name, r, m, rank, seq, cand, element):
         ctx.violation(f"crash:{type(e).__name__}@{emlkit.raise_site(e)}", f"{rule_name}: children {list(seq)} + {cand!r}: {e!r}", wit)
     finally:
         emlkit.discard(parent, new)
+        if other is not None:
+            emlkit.discard(other)
 
 
 def random_valid(m, rng, want):
